@@ -300,7 +300,7 @@ pub fn run(rep: &mut Report) {
 	let plan = sgen::Plan { escapes: 0, ..sgen::plan(thorough) };
 	let levels: Vec<ggen::GBounds> = c09::levels(thorough).into_iter().filter(|b| b.n <= 3 || (thorough && b.label == "n4-ns2-canonical")).collect();
 	rep.rule = format!(
-		"SAE. Documents: C07's valid ASTs x spellings (tier {}; grammar families: {}; spellings: {}); per document: SchemaMut::canonical_form_rabin_fingerprint = Schema::rabin_fingerprint = LE64(crc64_avro(own canonical text)) [hook H1] and canonical text = vmodel::pcf(AST), fingerprint = LE64(crc64_avro(pcf(AST))) with a bit-serial CRC; the set of fingerprints over all spellings of one AST has one element; forward-reference variants: checksum-of-own-text only. Global: two ASTs with different canonical forms never share a fingerprint (unless the reference CRC collides too). Difference pairs for every valid AST: each single edit that changes the canonical form (wrap any node in an array, int -> long, swap union branches, rename a type, move a type to another namespace, reorder / rename fields, reorder / rename symbols, size + 1) must change the fingerprint, each edit that does not (logical type added to an int or to a named type) must not. Programmatic graphs (C09's levels {}; null-namespace names constructed both as Name::from_fully_qualified_name(\"X\") and as (\".X\") up to 3 nodes, mixed by node parity above): the two fingerprints agree with the reference for the unfolded graph. Checksum step via hook H2: initial state, the 73 basis vectors (0, 64 unit states, 8 unit bytes) and all 256 table entries against the bit-serial definition, table GF(2)-linear in the byte, joint additivity on all basis pairs — by linearity of `(s >> 8) ^ T[(s ^ b) & 0xff]` in (s, b) this determines all 2^64 x 256 pairs — plus, not relying on that argument, every (state, byte) with state < 2^16 or state = unit high bit ^ low byte, exhaustively. HIST: every history of <= {} operations from {{b = a.clone(); a.clone_from(&b); b.clone_from(&a); and for a and b: canonical_form_rabin_fingerprint(), serde_json::to_string(), freeze() (consumes the object), 5 edits through nodes_mut() (no change, rename first field, add symbol, fixed size + 1, rename first named type alternately to q.Q and to the null-namespace Q constructed as Name::from_fully_qualified_name(\".Q\"))}} on 5 base schemas (parsed with extra attributes / built with from_nodes; record+enum+fixed+recursion, array on a cycle through a record, enum without symbols, fixed), rebuilt from scratch per history (explicit-state BFS, key = history + all results); invariant after every operation: the fingerprint reported by the object / by the frozen Schema = fingerprint of the reference canonical form of the CURRENT nodes = what a fresh SchemaMut::from_nodes(current nodes) reports. Hook-free: every ASCII character and 6 multi-byte characters driven through a type name. Non-trivial: documents with >= 1 reference or namespace transition (distinct by text), difference pairs (distinct by both texts), graphs with a shared / cyclic named node.",
+		"SAE. Documents: C07's valid ASTs x spellings (tier {}; grammar families: {}; spellings: {}); per document: SchemaMut::canonical_form_rabin_fingerprint = Schema::rabin_fingerprint = LE64(crc64_avro(own canonical text)) [hook H1] and canonical text = vmodel::pcf(AST), fingerprint = LE64(crc64_avro(pcf(AST))) with a bit-serial CRC; the set of fingerprints over all spellings of one AST has one element; forward-reference variants: checksum-of-own-text only. Global: two ASTs with different canonical forms never share a fingerprint (unless the reference CRC collides too). Difference pairs for every valid AST: each single edit that changes the canonical form (wrap any node in an array, int -> long, swap union branches, rename a type, move a type to another namespace, reorder / rename fields, reorder / rename symbols, size + 1) must change the fingerprint, each edit that does not (logical type added to an int or to a named type) must not. Programmatic graphs (C09's levels {}; null-namespace names constructed both as Name::from_fully_qualified_name(\"X\") and as (\".X\") up to 3 nodes, mixed by node parity above); plus the sweep of every primitive kind — bare, with each allowed known logical type, with an unknown one — at every leaf position of one shape, and unions carrying a logical type): the two fingerprints agree with the reference for the unfolded graph. Checksum step via hook H2: initial state, the 73 basis vectors (0, 64 unit states, 8 unit bytes) and all 256 table entries against the bit-serial definition, table GF(2)-linear in the byte, joint additivity on all basis pairs — by linearity of `(s >> 8) ^ T[(s ^ b) & 0xff]` in (s, b) this determines all 2^64 x 256 pairs — plus, not relying on that argument, every (state, byte) with state < 2^16 or state = unit high bit ^ low byte, exhaustively. HIST: every history of <= {} operations from {{b = a.clone(); a.clone_from(&b); b.clone_from(&a); and for a and b: canonical_form_rabin_fingerprint(), serde_json::to_string(), freeze() (consumes the object), 5 edits through nodes_mut() (no change, rename first field, add symbol, fixed size + 1, rename first named type alternately to q.Q and to the null-namespace Q constructed as Name::from_fully_qualified_name(\".Q\"))}} on 6 base schemas (parsed with extra attributes / built with from_nodes; record+enum+fixed+recursion, array on a cycle through a record, enum without symbols, fixed), rebuilt from scratch per history (explicit-state BFS, key = history + all results); invariant after every operation: the fingerprint reported by the object / by the frozen Schema = fingerprint of the reference canonical form of the CURRENT nodes = what a fresh SchemaMut::from_nodes(current nodes) reports. Hook-free: every ASCII character and 6 multi-byte characters driven through a type name. Non-trivial: documents with >= 1 reference or namespace transition (distinct by text), difference pairs (distinct by both texts), graphs with a shared / cyclic named node.",
 		rep.tier,
 		sgen::describe_grammars(thorough),
 		sgen::describe_plan(&plan),
@@ -405,6 +405,41 @@ pub fn run(rep: &mut Report) {
 		}
 	}
 
+	// every primitive kind at every leaf position; unions with a logical type (the canonical form
+	// ignores logical types)
+	{
+		let mut cover = Cover::default();
+		let mut out = Vec::new();
+		for (_, g) in ggen::primitive_sweep() {
+			cover.states += 1;
+			cover.transitions += 1;
+			cover.count("primitive_sweep_graphs", 1);
+			judge_graph(&g, ggen::NameSpell::Plain, &mut cover, &mut out);
+		}
+		for g in ggen::union_with_logical() {
+			cover.states += 1;
+			cover.transitions += 1;
+			cover.evaluations += 1;
+			cover.impl_runs += 1;
+			cover.count("union_with_logical_type_graphs", 1);
+			let stripped: Vec<GNode> = g.iter().map(|n| if matches!(n.kind, ggen::GKind::Union(_)) { GNode::plain(n.kind.clone()) } else { n.clone() }).collect();
+			let want_text = pcf(&ggen::unfold(&stripped));
+			let want = fingerprint_le(want_text.as_bytes());
+			let sm = SchemaMut::from_nodes(ggen::to_crate(&g));
+			match guarded(|| sm.canonical_form_rabin_fingerprint().map_err(|e| e.to_string())) {
+				Out::Ok(fp) if fp == want => {}
+				Out::Err(_) => cover.count("union_with_logical_type_fingerprint_err", 1),
+				other => out.push(Violation {
+					class: "fingerprint-differs".into(),
+					what: format!("graph {} (built with from_nodes; a union node carries a logical type): canonical_form_rabin_fingerprint() = {other:02x?}, expected Err or {want:02x?} = LE64(CRC-64-AVRO({want_text}))", ggen::describe(&g)),
+					replay: json!({"check": "C08", "kind": "graph", "graph": ggen::to_json(&stripped)}),
+				}),
+			}
+		}
+		rep.cover.merge(cover);
+		rep.violations.extend(out);
+	}
+
 	// vacuity guards (skipped when the enumeration was cut short by violations)
 	if rep.violations.len() as u64 >= 50 + rep.cover.counters.get("attributed_violations").copied().unwrap_or(0) {
 		return;
@@ -431,6 +466,7 @@ pub fn run(rep: &mut Report) {
 		"name_driven_fingerprints",
 		"histories_observe_edit_observe",
 		"graphs_with_dot_constructed_null_namespace_names",
+		"primitive_sweep_graphs",
 	] {
 		if c(k) == 0 {
 			missing.push(k);
